@@ -65,6 +65,12 @@ func TestVerifC05(t *testing.T) {
 				cfgs = append(cfgs, cfgT{mode, tsbd, ato, st, "", mode + ":seeded"})
 			}
 		}
+		// present-day start time with offsets that have no short binary representation (0.1 s, 0.3 s): the publishTime arithmetic
+		// works on float seconds near 1.7e9, where one millisecond is only a few units in the last place
+		cfgs = append(cfgs, cfgT{"time", 60, 100, 1_700_000_000, "", "time:ato0.1:now"})
+		if r.Thorough() || wi%2 == 0 {
+			cfgs = append(cfgs, cfgT{"tlnr", 17, 300, 1_723_456_789, "", "tlnr:ato0.3:now"})
+		}
 		// multi-period: a period duration that is a multiple of the (average) segment duration; values the server refuses are skipped below
 		var pdS int64
 		for _, cand := range []int64{10, 12, 20, 30, 60, 120} {
